@@ -1,8 +1,174 @@
 import PyPhysim.Model.Proto
-open PyPhysim.Proto
+import PyPhysim.Model.C04
+open PyPhysim.Proto PyPhysim.C04
 
--- stub: replaced when the C04 model is written
+/-!
+Line-protocol driver of the C04 model, instantiated at binary64.
+Matrices travel row-major, each scalar as two binary64 bit patterns
+(`re,im`), comma separated; `-` is the empty array; shapes are decimal.
+Results of the external kernels (`pinv`, `solve`, `svd`, `gmd`) are inputs.
+-/
+
+/-- binary64 complex number -/
+structure CF where
+  re : Float
+  im : Float
+
+instance : Zero CF := ⟨⟨0, 0⟩⟩
+instance : One CF := ⟨⟨1, 0⟩⟩
+instance : Add CF := ⟨fun a b => ⟨a.re + b.re, a.im + b.im⟩⟩
+instance : Sub CF := ⟨fun a b => ⟨a.re - b.re, a.im - b.im⟩⟩
+instance : Neg CF := ⟨fun a => ⟨-a.re, -a.im⟩⟩
+instance : Mul CF := ⟨fun a b => ⟨a.re * b.re - a.im * b.im, a.re * b.im + a.im * b.re⟩⟩
+instance : Div CF := ⟨fun a b =>
+  let d := b.re * b.re + b.im * b.im
+  ⟨(a.re * b.re + a.im * b.im) / d, (a.im * b.re - a.re * b.im) / d⟩⟩
+instance : NatCast CF := ⟨fun n => ⟨n.toFloat, 0⟩⟩
+instance : CScalar CF where
+  conj a := ⟨a.re, -a.im⟩
+  sqrt a := ⟨Float.sqrt a.re, 0⟩
+  abs a := ⟨Float.sqrt (a.re * a.re + a.im * a.im), 0⟩
+  angle a := ⟨Float.atan2 a.im a.re, 0⟩
+  exp a := ⟨Float.exp a.re * Float.cos a.im, Float.exp a.re * Float.sin a.im⟩
+  I := ⟨0, 1⟩
+  posB a := a.re > 0
+  nonnegB a := a.re >= 0
+
+def toMat (m n : Nat) (xs : Array CF) : Mat CF m n :=
+  fun i j => xs.getD (i.val * n + j.val) ⟨0, 0⟩
+
+def toVec (n : Nat) (xs : Array CF) : Vec CF n := fun i => xs.getD i.val ⟨0, 0⟩
+
+def pairs : List Float → Option (List CF)
+  | [] => some []
+  | re :: im :: rest => (pairs rest).map (fun t => ⟨re, im⟩ :: t)
+  | _ => none
+
+def emptyOk (s : String) : String := if s = "-" then "" else s
+
+/-- parse `count` complex numbers (2·count floats) -/
+def parseC (count : Nat) (s : String) : Option (Array CF) := do
+  let fs ← parseFloatList? (emptyOk s)
+  let ps ← pairs fs
+  if ps.length = count then some ps.toArray else none
+
+def showC (z : CF) : String := showFloat z.re ++ "," ++ showFloat z.im
+
+def showMat {m n : Nat} (A : Mat CF m n) : String :=
+  ",".intercalate ((List.finRange m).flatMap (fun i => (List.finRange n).map (fun j => showC (A i j))))
+
+def showVec {n : Nat} (v : Vec CF n) : String :=
+  ",".intercalate ((List.finRange n).map (fun i => showC (v i)))
+
+def showE {β} (f : β → String) : Except PyErr β → String
+  | .ok b => f b
+  | .error e => "error:" ++ toString e
+
+def nats : List String → Option (List Nat) := fun l => l.mapM String.toNat?
+
 def handle : List String → String
+  -- mmseargs Nr Nt H nv -> lhs | rhs   (the two arguments of np.linalg.solve)
+  | ["mmseargs", nr, nt, h, nv] => Id.run do
+      let some [nr, nt] := nats [nr, nt] | return "bad-op"
+      let some H := parseC (nr * nt) h | return "bad-op"
+      let some v := parseC 1 nv | return "bad-op"
+      let H := toMat nr nt H
+      return showMat (mmseLhs H (v.getD 0 0)) ++ "|" ++ showMat (mmseRhs H)
+  -- blastflt Nr Nt nv Gp Ws -> precoder | filter
+  | ["blastflt", nr, nt, nv, gp, ws] => Id.run do
+      let some [nr, nt] := nats [nr, nt] | return "bad-op"
+      let some v := parseC 1 nv | return "bad-op"
+      let some Gp := parseC (nt * nr) gp | return "bad-op"
+      let some Ws := parseC (nt * nr) ws | return "bad-op"
+      return showMat (blastPrecoder (α := CF) nt) ++ "|" ++
+        showMat (blastFilter (v.getD 0 0) (toMat nt nr Gp) (toMat nt nr Ws))
+  -- blastenc Nt n x -> encoded | error
+  | ["blastenc", nt, n, x] => Id.run do
+      let some [nt, n] := nats [nt, n] | return "bad-op"
+      let some X := parseC n x | return "bad-op"
+      return showE showMat (blastEncode nt (toVec n X))
+  -- blastdec Nr Nt L nv Gp Ws Y -> decoded
+  | ["blastdec", nr, nt, l, nv, gp, ws, y] => Id.run do
+      let some [nr, nt, l] := nats [nr, nt, l] | return "bad-op"
+      let some v := parseC 1 nv | return "bad-op"
+      let some Gp := parseC (nt * nr) gp | return "bad-op"
+      let some Ws := parseC (nt * nr) ws | return "bad-op"
+      let some Y := parseC (nr * l) y | return "bad-op"
+      let G := blastFilter (v.getD 0 0) (toMat nt nr Gp) (toMat nt nr Ws)
+      return showVec (blastDecode G (toMat nr l Y))
+  -- svdenc Nt n VH x -> precoder | encoded
+  | ["svdenc", nt, n, vh, x] => Id.run do
+      let some [nt, n] := nats [nt, n] | return "bad-op"
+      let some VH := parseC (nt * nt) vh | return "bad-op"
+      let some X := parseC n x | return "bad-op"
+      let W := svdPrecoder (toMat nt nt VH)
+      return showMat W ++ "|" ++ showE showMat (precodeC W (toVec n X))
+  -- svddec Nr K Nt L U S Y -> filter | decoded
+  | ["svddec", nr, k, nt, l, u, s, y] => Id.run do
+      let some [nr, k, nt, l] := nats [nr, k, nt, l] | return "bad-op"
+      let some U := parseC (nr * k) u | return "bad-op"
+      let some S := parseC k s | return "bad-op"
+      let some Y := parseC (nr * l) y | return "bad-op"
+      let G := svdFilter nt (toMat nr k U) (toVec k S)
+      return showMat G ++ "|" ++ showVec (decodeC G (toMat nr l Y))
+  -- gmdenc Nt n P x -> precoder | encoded
+  | ["gmdenc", nt, n, p, x] => Id.run do
+      let some [nt, n] := nats [nt, n] | return "bad-op"
+      let some P := parseC (nt * nt) p | return "bad-op"
+      let some X := parseC n x | return "bad-op"
+      let W := gmdPrecoder (toMat nt nt P)
+      return showMat W ++ "|" ++ showE showMat (precodeC W (toVec n X))
+  -- gmdeq Nr Nt Q R nv -> the equivalent channel handed to pinv | the two arguments of solve for it
+  | ["gmdeq", nr, nt, q, r, nv] => Id.run do
+      let some [nr, nt] := nats [nr, nt] | return "bad-op"
+      let some Q := parseC (nr * nr) q | return "bad-op"
+      let some R := parseC (nr * nt) r | return "bad-op"
+      let some v := parseC 1 nv | return "bad-op"
+      let Heq := gmdChannelEq (toMat nr nr Q) (toMat nr nt R)
+      return showMat Heq ++ "|" ++ showMat (mmseLhs Heq (v.getD 0 0)) ++ "|" ++ showMat (mmseRhs Heq)
+  -- gmddec Nr Nt L nv Gp Ws Y -> filter | decoded
+  | ["gmddec", nr, nt, l, nv, gp, ws, y] => Id.run do
+      let some [nr, nt, l] := nats [nr, nt, l] | return "bad-op"
+      let some v := parseC 1 nv | return "bad-op"
+      let some Gp := parseC (nt * nr) gp | return "bad-op"
+      let some Ws := parseC (nt * nr) ws | return "bad-op"
+      let some Y := parseC (nr * l) y | return "bad-op"
+      let G := blastFilter (v.getD 0 0) (toMat nt nr Gp) (toMat nt nr Ws)
+      return showMat G ++ "|" ++ showVec (decodeC G (toMat nr l Y))
+  -- mrt Nt n h x Y -> precoder | filter | encoded | decoded
+  | ["mrt", nt, n, h, x, y] => Id.run do
+      let some [nt, n] := nats [nt, n] | return "bad-op"
+      let some H := parseC nt h | return "bad-op"
+      let some X := parseC n x | return "bad-op"
+      let some Y := parseC n y | return "bad-op"
+      let h := toVec nt H
+      return showVec (mrtPrecoder h) ++ "|" ++ showC (mrtFilter h) ++ "|" ++
+        showMat (mrtEncode h (toVec n X)) ++ "|" ++ showVec (mrtDecode h (toMat 1 n Y))
+  -- alaenc n x -> encoded | error
+  | ["alaenc", n, x] => Id.run do
+      let some [n] := nats [n] | return "bad-op"
+      let some X := parseC n x | return "bad-op"
+      return showE showMat (alamoutiEncode (toVec n X))
+  -- aladec Nr B H Y -> decoded
+  | ["aladec", nr, b, h, y] => Id.run do
+      let some [nr, b] := nats [nr, b] | return "bad-op"
+      let some H := parseC (nr * 2) h | return "bad-op"
+      let some Y := parseC (nr * (2 * b)) y | return "bad-op"
+      return showVec (alamoutiDecode (toMat nr 2 H) (toMat nr (2 * b) Y))
+  -- shape kind dims -> stored shape | error
+  | ["shape", kind, dims] => Id.run do
+      let some d := parseNatList? dims | return "bad-op"
+      let r := match kind with
+        | "miso" => misoShape d
+        | "mrc" => mrcShape d
+        | "alamouti" => alamoutiShape d
+        | _ => .error .KeyError
+      return showE (fun p => toString p.1 ++ "," ++ toString p.2) r
+  -- setnv none | setnv <re,im> -> stored value | error
+  | ["setnv", v] => Id.run do
+      if v = "none" then return showE showC (setNoiseVar (α := CF) none)
+      let some x := parseC 1 v | return "bad-op"
+      return showE showC (setNoiseVar (some (x.getD 0 0)))
   | _ => "bad-op"
 
 def main : IO Unit := runDriver handle
